@@ -60,13 +60,14 @@ def variation(h: Harness, spec, b, g, kind, d, v, rng):
         rep = TreeBasedRepresentation(g, dec)
         pool = [v]
         for step in range(h.n(4, 12)):
+            op = "mutate" if (rng.random() < 0.5 or len(pool) < 2) else "crossover"
             try:
-                if rng.random() < 0.5 or len(pool) < 2:
+                if op == "mutate":
                     out = [rep.mutate(src, rng.choice(pool))]
-                    op = "mutate"
                 else:
                     out = list(rep.crossover(src, rng.choice(pool), rng.choice(pool)))
-                    op = "crossover"
+            except RecursionError:
+                return
             except Exception as e:  # noqa: BLE001
                 h.fail(f"TreeBasedRepresentation.{op}[{kind}]", "feasible-limit-fails",
                        f"{op} under limit {d} raised {gram.err_kind(e)}", [sx(gram.spec_sx(spec)), kind, d, step])
@@ -97,12 +98,45 @@ def retry_witness(h: Harness):
             one(h, RETRY_WITNESS, b, g, mind, kind, mind, draws + [0] * 16)
 
 
+def dsge_limits(h: Harness, spec, b, g, mind, rng):
+    """dynamic SGE takes a depth limit too: every limit >= minimum must be accepted and respected"""
+    from linear import DSGE, safe
+    import linear
+    line_spec = gram.spec_sx(spec)
+    for d in range(max(0, mind - 1), mind + 3):
+        draws = [rng.randrange(0, 5000) for _ in range(300)]
+        src = ScriptedSource(draws)
+        rep = DSGE(g, d)
+        geno = rep.create_genotype(src)
+        st, p = safe(lambda: rep.genotype_to_phenotype(geno))
+        if st == "skip":
+            continue
+        res = ["ok", gram.canon(p, b)] if st == "ok" else ["err", p]
+        site = "DynamicSGE.genotype_to_phenotype"
+        replay = [sx(line_spec), "dsge", d, draws[:40]]
+        h.agree(site, ["map_dsge", line_spec, d, [], draws[:src.pos + 4]], [res, linear.dsge_sx(geno.dna, b), src.pos],
+                nontrivial=d >= mind)
+        if d < mind:
+            if res != ["err", "library"]:
+                h.fail(site, "infeasible-limit-not-rejected-upfront", f"max depth {d} < minimum {mind} gave {sx(res)[:100]}", replay)
+        elif st != "ok":
+            h.fail(site, "feasible-limit-fails", f"max depth {d} >= grammar minimum {mind} but mapping failed with {p}", replay)
+        else:
+            h.holds(site, "depth-exceeds-limit", ["prop_depth", d, res[1]], f"mapped program deeper than {d}", replay)
+
+
 def run(h: Harness):
     rng = h.rng
     retry_witness(h)
     ngr = h.n(70, 1200)
     for gi in range(ngr):
         spec = gram.productive_spec(rng, max_classes=rng.choice([3, 4, 5, 7]), opts=OPTS)
+        if rng.random() < 0.2:
+            # a CONCRETE start symbol: the first production choice happens below the root
+            n = len(spec.classes)
+            spec.classes.append(gram.ClassSpec(f"S{n}", False, None, [("a", ("cls", 0)), ("b", ("list", ("cls", 0)))][: rng.randint(1, 2)]))
+            spec.start = n
+            h.count("concrete-start-symbol")
         b = gram.build(spec)
         try:
             g = b.extract()
@@ -113,6 +147,7 @@ def run(h: Harness):
             continue
         line_spec = gram.spec_sx(spec)
         h.agree("Grammar.get_min_tree_depth", ["min_depth", line_spec], mind)
+        dsge_limits(h, spec, b, g, mind, rng)
         for d in range(max(0, mind - 1), mind + 5):
             for kind in ("grow", "full", "pigrow"):
                 v = None
